@@ -66,6 +66,7 @@ type framePlan struct {
 	prebuilt   proto.Message // pulsar producer: message built at plan time with a tape-drawn history
 	roOps      []int         // read-only calls the producer makes on its message before Marshal
 	staleSel   int           // >0: the producer clears a populated map/list field and then reads through views obtained before
+	malformed  bool          // foreign frame cut short or carrying an invalid / unusual record
 	accumulate bool          // the consumer merge-decodes this frame into its accumulator for the type (earlier frames' buffers are long recycled by then)
 }
 
@@ -474,6 +475,13 @@ func runPipeline(c *simrun.Ctx) *simrun.Violation {
 			fp.foreign = t.Chance("foreign", 1, 3)
 			if fp.foreign {
 				fp.wire = (&simval.EncodeOpts{T: t, Shuffle: true, Unknowns: true, Redundant: t.Chance("redundant", 1, 2), NonCanonical: t.Chance("noncanonical", 1, 2), DupMapKeys: t.Chance("dupkeys", 1, 2), KeyOnlyEntries: t.Chance("keyonly", 1, 3)}).Encode(fp.av)
+				if t.Chance("malformed", 1, 6) {
+					// a malformed or unusual frame: the decoder fails part-way (or
+					// has to skip groups); it must still leave the input alone and
+					// hold no view of it, and the control decode of a private copy
+					// of the same bytes must end the same way
+					fp.wire, fp.malformed = simval.Malform(t, fp.wire), true
+				}
 			} else {
 				// the producer's message is built here, with a tape-drawn history
 				// (struct literal with empty non-nil containers and spare capacity,
@@ -951,6 +959,10 @@ func runPipeline(c *simrun.Ctx) *simrun.Violation {
 		err := decodeFrame(sf.control, cm, sf.plan)
 		if err != nil {
 			control[i] = "unmarshal-error: " + err.Error()
+			if sf.plan.malformed {
+				st.Add("fault_malformed_or_truncated_frame", 1)
+				st.Add("probe_decoder_failed_part_way", 1)
+			}
 			continue
 		}
 		d, derr := simval.CanonStruct(cm)
@@ -961,6 +973,10 @@ func runPipeline(c *simrun.Ctx) *simrun.Violation {
 		st.Add("frames_delivered", 1)
 		if sf.plan.foreign {
 			st.Add("frames_foreign_with_unknown_and_shuffled_records", 1)
+		}
+		if sf.plan.malformed {
+			st.Add("fault_malformed_or_truncated_frame", 1)
+			st.Add("probe_malformed_frame_decoded_without_error", 1)
 		}
 	}
 	looks := 0
